@@ -39,14 +39,16 @@ def tpl_match(items, s):
 
 
 class Sem:
-    def __init__(self, named):
+    def __init__(self, named, runtime=False):
         self.named = dict(named)
+        self.runtime = runtime       # beff's runtime conventions: null ~ undefined, an optional property may be nullish
 
     def member(self, t, v, exact, depth=0):
         if depth > 80: raise Incomplete("deep")
         t = strip(t)
         k = t[0]
         m = lambda t2, v2: self.member(t2, v2, exact, depth + 1)
+        if self.runtime and k in ("Null", "Undefined", "Void"): return v in (NUL, U)
         if k == "Null": return v == NUL
         if k in ("Undefined", "Void"): return v == U
         if k == "Boolean": return v[0] == "b"
@@ -71,8 +73,9 @@ class Sem:
             for name, (req, pt) in t[1]:
                 declared.add(name)
                 if name not in fields:
-                    if req: return False
+                    if req and not (self.runtime and m(pt, U)): return False
                     continue
+                if self.runtime and not req and fields[name] in (NUL, U): continue
                 if not m(pt, fields[name]): return False
             idx = t[2]
             for name, val in fields.items():
